@@ -192,7 +192,8 @@ def small_reps(model, rng):
 def run(rep, tier):
     quick = tier == 'quick'
     asan = core.Svh('asan', timeout=20)
-    rep.set_proof(core.prove(['Properties_C08.v']))
+    from checks import c11
+    rep.set_proof(c11.prove_shared(['Properties_C08.v']))
     rep.trusted += ['Coq 8.16.1 kernel', 'extraction + runner/main.ml', 'harness/c07.cc', 'ASan/UBSan, per-request time limit']
     rep.assumptions += ['printing doubles with 17+ significant digits and strtod are exercised (bit-exact comparison), not modelled',
                         'the parser itself is not modelled in Coq beyond tags/integers; coordinates are omitted from DemFlat']
